@@ -133,7 +133,18 @@ def main(argv):
                 v["source"] = "bounded(native)"
                 violations.append(v)
         except Exception as e:
-            broken.append(f"bounded stand-in crashed: {type(e).__name__}: {e}\n{traceback.format_exc()[-1200:]}")
+            tb = traceback.extract_tb(e.__traceback__)
+            inner = tb[-1] if tb else None
+            repo_root = os.environ.get("VERIF_REPO", "/repo")
+            if inner is not None and os.path.realpath(inner.filename).startswith(os.path.realpath(repo_root) + os.sep):
+                # the REAL code raised on a scenario that runs cleanly on the unchanged tree: a native failure
+                where = f"{os.path.relpath(inner.filename, repo_root)}:{inner.name}"
+                violations.append({"sig": f"native::exception::{type(e).__name__}@{where}", "source": "bounded(native)",
+                                   "what": f"the real code raised {type(e).__name__}: {str(e)[:300]} at {where}:{inner.lineno} during the bounded stand-in",
+                                   "input": {"traceback": traceback.format_exc()[-1500:]}})
+                bounded = {"evaluations": 1, "distinct_nontrivial": 0, "rule": "bounded stand-in aborted by an exception raised inside the code under test", "samples": [], "exhaustive": False}
+            else:
+                broken.append(f"bounded stand-in crashed: {type(e).__name__}: {e}\n{traceback.format_exc()[-1200:]}")
     structural_undecided = []
     for full, unit_id, name, o in refuted:
         rep = None
